@@ -74,9 +74,14 @@ func c05Wide(seed uint64, i int) *c05Case {
 			}
 		}
 	}
-	p := &gen.Program{Commands: []gen.Command{{Body: body}}}
+	var am gen.Amount
+	if rng.Bool() {
+		// the built-ins of a match under an amount clause are those of the match, not of its place in the list
+		am = gen.RandomAmount(rng)
+	}
+	p := &gen.Program{Commands: []gen.Command{{Body: body, Amount: am}}}
 	cs.find = gen.RenderProgram(p)
-	rp := &gen.Program{Commands: []gen.Command{{Body: body, Replace: true, With: cs.with}}}
+	rp := &gen.Program{Commands: []gen.Command{{Body: body, Replace: true, With: cs.with, Amount: am}}}
 	cs.repl = trSrc + gen.RenderProgram(rp)
 	letters := "abcxyzABQ"
 	var text []byte
